@@ -52,6 +52,21 @@ def rand_shape(rng, depth=3, comb_bias=0.5):
     return ('map', (rng.choice(KEY_ATOMS),), rand_shape(rng, depth - 1, comb_bias))
 
 
+def rand_nonpair_shape(rng, depth=2):
+    """a shape whose root is not a pair (atom, option, or, list, map; pairs may occur below the root): what `GET 0` / `UPDATE 0`
+    must accept although no other comb instruction does"""
+    k = rng.randrange(7)
+    if depth <= 0 or k < 3:
+        return (rng.choice(ATOMS),)
+    if k == 3:
+        return ('option', rand_shape(rng, depth - 1, 0.6))
+    if k == 4:
+        return ('or', rand_shape(rng, depth - 1, 0.6), rand_shape(rng, depth - 1, 0.6))
+    if k == 5:
+        return ('list', rand_shape(rng, depth - 1, 0.6))
+    return ('map', (rng.choice(KEY_ATOMS),), rand_shape(rng, depth - 1, 0.6))
+
+
 def tsize(sh):
     return 1 + sum(tsize(a) for a in sh[1:])
 
@@ -258,7 +273,7 @@ class ProgGen:
         if len(S) < self.max_stack:
             cands += ['PUSH'] * (4 if len(S) < 2 else 1)
         if S:
-            cands += ['DROP', 'DUP']
+            cands += ['DROP', 'DUP', 'GET0']        # GET 0 :: a : S -> a : S, any a
             if not big:
                 cands += ['SOME', 'LEFT', 'RIGHT', 'NILCONS', 'LAMBDA_EXEC']
             if top[0] != 'lambda':
@@ -274,7 +289,7 @@ class ProgGen:
             if top[0] == 'list':
                 cands += ['IF_CONS']
         if len(S) >= 2:
-            cands += ['SWAP', 'DIG', 'DUG', 'DUPN']
+            cands += ['SWAP', 'DIG', 'DUG', 'DUPN', 'UPDATE0']      # UPDATE 0 :: a : b : S -> a : S, any a, b
             if not big and tsize(S[1]) <= self.max_tsize:
                 cands += ['PAIR', 'PAIR', 'PAIRN', 'PAIRN']
             if S[1][0] == 'pair' and not big:
@@ -289,6 +304,10 @@ class ProgGen:
             return [{'prim': 'DROP'}], S[1:]
         if c == 'DUP':
             return [{'prim': 'DUP'}], [top] + S
+        if c == 'GET0':
+            return [{'prim': 'GET', 'args': [{'int': '0'}]}], S
+        if c == 'UPDATE0':
+            return [{'prim': 'UPDATE', 'args': [{'int': '0'}]}], [top] + S[2:]
         if c == 'SOME':
             return [{'prim': 'SOME'}], [('option', top)] + S[1:]
         if c in ('LEFT', 'RIGHT'):
